@@ -23,7 +23,7 @@ func init() { core.Register(c05{}) }
 
 func (c05) ID() string                  { return "C05" }
 func (c05) Level() string               { return "exploration" }
-func (c05) ChildParallel() int          { return 2 }
+func (c05) ChildParallel() int          { return 1 } // the point handler is process-wide (targeted stall below)
 func (c05) Exhaustive(tier string) bool { return false }
 func (c05) Rule() string {
 	return "A real ClientChannel against a scripted responder that sees every request and is told per call what to do: answer now, answer after a random delay (so answers are permuted), answer twice, never answer, answer with an unknown id, answer only after the caller's context has ended. Every response carries a unique token. " +
@@ -251,6 +251,12 @@ func (p c05) Run(c core.Case) core.Result {
 		if !strings.HasPrefix(name, "channel.process.") && name != "channel.submit.between" {
 			return
 		}
+		if name == "channel.process.cleanup" && atomic.CompareAndSwapInt32(&c05stall, 1, 2) {
+			// targeted stall (phased history, "reuse race"): this call has its answer and is about to clean up
+			close(c05entered)
+			<-c05gate
+			return
+		}
 		atomic.AddInt64(&hookHits, 1)
 		hmu.Lock()
 		k := hr.Intn(16)
@@ -321,6 +327,12 @@ func c05cancelledBefore(recs []callRec, rec callRec) bool {
 func c05inUse(err error) bool {
 	return err != nil && strings.Contains(err.Error(), "already in use")
 }
+
+// Targeted stall of one call's cleanup (see the reuse race of the phased history).
+var (
+	c05stall            int32
+	c05entered, c05gate chan struct{}
+)
 
 // phased: deterministic outcome thanks to barriers.
 func (p c05) phased(r *core.Result, g *c05rig, transport string, seed uint64, h int) {
@@ -461,11 +473,66 @@ func (p c05) phased(r *core.Result, g *c05rig, transport string, seed uint64, h 
 	} else {
 		r.Count("responses_to_callers", 1)
 	}
+	// phase 8: reuse race - G has received its answer and is held right before its cleanup; H reuses the id (which is
+	// free again: G completed as far as the table is concerned), reaches the wire, and only then G cleans up. G's
+	// cleanup must not disturb H: H gets its own answer.
+	got := []ret2{{aTok, X}, {c05rtok(cr.resp), X}, {c05rtok(f.resp), "W-twice"}}
+	c05entered, c05gate = make(chan struct{}), make(chan struct{})
+	gateOpen := false
+	openGate := func() {
+		if !gateOpen {
+			gateOpen = true
+			close(c05gate)
+		}
+	}
+	defer func() { atomic.StoreInt32(&c05stall, 0); openGate() }()
+	atomic.StoreInt32(&c05stall, 1)
+	g.rs.expect("G", c05policy{mode: "now"})
+	ctxG, cancelG := context.WithTimeout(bg, 5*time.Second)
+	defer cancelG()
+	chG := call(ctxG, "V-race", "G")
+	r.Count("calls", 1)
+	select {
+	case <-c05entered:
+		seenH, goH := g.rs.expect("H", c05policy{mode: "late"})
+		ctxH, cancelH := context.WithTimeout(bg, 5*time.Second)
+		defer cancelH()
+		chH := call(ctxH, "V-race", "H")
+		r.Count("calls", 1)
+		if !wait(seenH, "request H (id reused while the previous call with that id is cleaning up)") {
+			return
+		}
+		openGate()
+		gr := <-chG
+		if gr.err != nil || gr.resp == nil || gr.resp.ID != "V-race" {
+			r.Violate("C05/reuse-race", fmt.Sprintf("%s: the call held before its cleanup returned (%v, %v) instead of its answer", tag, gr.resp, gr.err))
+		} else {
+			r.Count("responses_to_callers", 1)
+			got = append(got, ret2{c05rtok(gr.resp), "V-race"})
+		}
+		close(goH)
+		hr := <-chH
+		if hr.err != nil || hr.resp == nil || hr.resp.ID != "V-race" {
+			r.Violate("C05/reuse-race", fmt.Sprintf("%s: a call that reused an id while the previous call with that id was cleaning up returned (%v, %v) instead of its own answer", tag, hr.resp, hr.err))
+		} else {
+			r.Count("responses_to_callers", 1)
+			r.Count("reuse_races", 1)
+			got = append(got, ret2{c05rtok(hr.resp), "V-race"})
+		}
+	case gr := <-chG:
+		// the cleanup point was not reached before the call returned (hooks off?): nothing to race with
+		r.Count("reuse_race_not_reached", 1)
+		if gr.err == nil && gr.resp != nil {
+			r.Count("responses_to_callers", 1)
+			got = append(got, ret2{c05rtok(gr.resp), "V-race"})
+		}
+	}
+	atomic.StoreInt32(&c05stall, 0)
 	// conservation at quiescence
-	p.conserve(r, g, tag, nil, []ret2{{aTok, X}, {c05rtok(cr.resp), X}, {c05rtok(f.resp), "W-twice"}}, true)
+	p.conserve(r, g, tag, nil, got, true)
 	r.Fingerprints = append(r.Fingerprints, fmt.Sprintf("phased|%s|k=%d|%s", transport, k, X))
 	if r.Sample == nil {
-		r.Sample = map[string]interface{}{"kind": "phased", "transport": transport, "duplicates_rejected": k, "id": X, "phases": []string{"pending", "duplicates rejected", "answer to original caller", "id reused", "late answer to stream", "unknown id to stream", "duplicate answer: caller + stream"}}
+		r.Sample = map[string]interface{}{"kind": "phased", "transport": transport, "duplicates_rejected": k, "id": X, "phases": []string{"pending", "duplicates rejected", "answer to original caller", "id reused", "late answer to stream", "unknown id to stream", "duplicate answer: caller + stream", "id reused while the previous call cleans up"}}
 	}
 }
 
